@@ -1061,6 +1061,7 @@ func main() {
 	apiCase(r)
 	diversityLegs(r)
 	redisLegs(r)
+	trLeg(r) // tr.go: the translated arithmetic against the real reload / Next
 	n := r.Scale(3000, 60000)
 	for k := 0; k < n; k++ {
 		c := randomHistory(r, r.R.Pick(12, 40, 120))
